@@ -186,7 +186,7 @@ def run_topdown(case, tmp):
     frames, truth = [], []
     for f in range(2):
         animals = [animal_pts(2.2 * a + f, 2.2 * a, a, f, invisible=(2 if (case["layout"] == 1 and f == 1) else None))]
-        if n_an == 2:
+        if n_an == 2 and f == 1:  # the animal count GROWS from frame 0 to frame 1 (a later batch holds more animals)
             animals.append(animal_pts(2.2 * a + 6.0 * a, 2.2 * a + 1.4 * a - f, a, f + 1, invisible=(1 if (case["layout"] == 1 and f == 0) else None)))
         frames.append({"image": S.render(H, W, animals, radius=r), "instances": animals})
         truth.append(animals)
@@ -214,8 +214,8 @@ def run_topdown(case, tmp):
             got.setdefault(int(fi), []).append((pk, np.asarray(pv, dtype=np.float64)))
     worst = 0.0
     for f in range(2):
-        if len(got.get(f, [])) != n_an:
-            return f"frame {f}: {len(got.get(f, []))} instances reported for {n_an} animals", None
+        if len(got.get(f, [])) != len(truth[f]):
+            return f"frame {f}: {len(got.get(f, []))} instances reported for {len(truth[f])} animals", None
         used = set()
         for t in truth[f]:
             anchor = t[0]
@@ -260,8 +260,8 @@ def grid(tier):
         cases.append({"model": "single", "hw": list(hw), "max_hw": list(mx), "scale": sc, "max_stride": ms, "stride": st, "refinement": rf, "batch": b, "provider": prov, "layout": lay})
     if tier == "quick":
         hws, maxs = [(64, 96)], [(None, None), (96, 160)]  # (96,160): eff_scale 1.5 + right padding
-        cs, iscs, spairs, crops, refs, batches = [1.0, 0.5], [1.0, 0.5], [(2, 2), (4, 2), (2, 4)], [32], [None, "integral"], [3]
-        animals, layouts = [1, 2], [1]
+        cs, iscs, spairs, crops, refs, batches = [1.0, 0.5], [1.0, 0.5], [(2, 2), (4, 2), (2, 4)], [32], [None, "integral"], [1, 3]
+        animals, layouts = [2], [1]
     else:
         hws, maxs = [(64, 64), (64, 96), (60, 80)], [(None, None), (96, 96), (128, 96), (96, 160), (48, 80)]
         cs, iscs, spairs, crops, refs, batches = [1.0, 0.5], [1.0, 0.5, 0.75, 2.0], [(1, 1), (2, 2), (4, 2), (2, 4), (4, 4)], [32, 48], [None, "integral"], [1, 3]
